@@ -94,6 +94,10 @@ func (d *mapDecoder) DecodeStream(s *Stream, depth int64, p unsafe.Pointer) erro
 		return nil
 	}
 	for {
+		if s.skipWhiteSpace() != '"' {
+			// an object key is a string: not null, not a bare word
+			return errors.ErrExpected("string for object key", s.totalOffset())
+		}
 		k := unsafe_New(d.keyType)
 		if err := d.keyDecoder.DecodeStream(s, depth, k); err != nil {
 			return err
@@ -157,6 +161,11 @@ func (d *mapDecoder) Decode(ctx *RuntimeContext, cursor, depth int64, p unsafe.P
 		return cursor, nil
 	}
 	for {
+		cursor = skipWhiteSpace(buf, cursor)
+		if buf[cursor] != '"' {
+			// an object key is a string: not null, not a bare word
+			return 0, errors.ErrExpected("string for object key", cursor)
+		}
 		k := unsafe_New(d.keyType)
 		keyCursor, err := d.keyDecoder.Decode(ctx, cursor, depth, k)
 		if err != nil {
